@@ -268,28 +268,32 @@ func (r *run) spawn(name string, f func()) *Thread {
 }
 
 func (t *Thread) main(r *run, f func()) {
-	defer func() {
-		v := recover()
-		if r.aborting {
-			r.live.Done()
-			return
-		}
-		if v != nil {
-			t.panicV = v
-			t.stack = string(debug.Stack())
-		}
-		t.state = stDone
-		t.op = opNone
-		r.ndone++
-		r.live.Done()
-		r.schedG.signal()
-	}()
+	defer t.finish(r)
 	t.gate.wait()
 	if r.aborting {
 		return
 	}
 	f()
 	t.exited = true
+}
+
+// finish is the deferred epilogue of every thread (a named function: closures are
+// instrumented by the race detector even inside //go:norace functions).
+func (t *Thread) finish(r *run) {
+	v := recover()
+	if r.aborting {
+		r.live.Done()
+		return
+	}
+	if v != nil {
+		t.panicV = v
+		t.stack = string(debug.Stack())
+	}
+	t.state = stDone
+	t.op = opNone
+	r.ndone++
+	r.live.Done()
+	r.schedG.signal()
 }
 
 // enter is called at the top of every shim operation executed by a thread.
